@@ -10,7 +10,7 @@ D5 each mode has a handler for the left and for the right side: Fill pushes both
    slope formulas anchored at the first / last knot.
 Not decided: exactness at knots to the last bit."""
 from ..ir import tag, show, short, subterms, is_panic_path
-from ..poly import poly, psub, pconst, peq, padd
+from ..poly import poly, psub, pconst, peq, padd, pshow
 from ..bounds import counter_bounds, definitely_negative
 from ..framework import site_of
 
@@ -287,6 +287,41 @@ def run(prog, rep, tier, repo):
                             if ps == [0, 1] and _orders_adjacent(rv2, want_v, gx, i_) and v is (not want_v):
                                 good = True
             if not good:
+                # zipped views: x[..n-1].iter().zip(&x[1..]).any(|(lo, hi)| hi - lo < 0.) -- the pairs (x[i], x[i+1]) for every i in 0..n-1
+                for cn, v in gs:
+                    if not (tag(cn) == 'call' and short(cn[1]) in ('any', 'all') and len(cn[2]) == 2 and tag(cn[2][1]) == 'agg' and cn[2][1][1] == 'closure'):
+                        continue
+                    zp = cn[2][0]
+                    if not (tag(zp) == 'call' and short(zp[1]) == 'zip' and len(zp[2]) == 2):
+                        continue
+                    va, vb = _view_of(zp[2][0], gx), _view_of(zp[2][1], gx)
+                    h = prog.func(cn[2][1][2])
+                    if va is None or vb is None or h is None or len(h.return_values()) != 1:
+                        continue
+                    n1 = {(('len', gx),): 1, (): -1}
+                    # each view: (offset, length polynomial); the zip has min(lengths) items: every adjacent pair is visited iff both >= len-1
+                    full = all(peq(ln, n1) or peq(ln, {(('len', gx),): 1}) for _, ln in (va, vb))
+                    i_ = ('pairidx',)
+                    pair = ('arg', 2, h.names.get(2))
+
+                    def sub_pair(n, va=va, vb=vb, pair=pair, i_=i_):
+                        if tag(n) == 'field' and n[1] == pair and n[2] in (0, 1):
+                            o = (va, vb)[n[2]][0]
+                            return ('index', gx, ('bin', 'Add', i_, ('const', 'usize', o), 'usize') if o else i_)
+                        return n
+                    from ..ir import map_term
+                    rv2 = map_term(h.return_values()[0], sub_pair)
+                    reads = [z for z in subterms(rv2) if tag(z) == 'index' and z[1] == gx]
+                    ps = sorted(pconst(psub(poly(z[2]), poly(i_))) for z in reads if pconst(psub(poly(z[2]), poly(i_))) is not None)
+                    want_v = (short(cn[1]) == 'any')
+                    if ps == [0, 1] and full and _orders_adjacent(rv2, want_v, gx, i_) and v is (not want_v):
+                        good = True
+                    elif ps == [0, 1] and full and tag(rv2) == 'bin' and isinstance(v, bool):
+                        problems.append('the zipped adjacent pairs are compared as %s being %s for the call to proceed: that is not "no descent x[i+1] < x[i]"' % (
+                            show(h.return_values()[0])[:60], 'false' if want_v else 'true'))
+                    elif ps == [0, 1] and not full:
+                        problems.append('the zipped views of x hold %s and %s items: not every adjacent pair x[i], x[i+1] (i in 0..len-1) is compared' % (pshow(va[1], show), pshow(vb[1], show)))
+            if not good:
                 # pair iteration: x.windows(2) visits every adjacent pair; x.chunks(2) / chunks_exact(2) visits the disjoint pairs (0,1), (2,3), ..
                 # and never compares x[1] with x[2]
                 for li in loops:
@@ -310,7 +345,14 @@ def run(prog, rep, tier, repo):
                             problems.append('the ordering check walks x.%s(2): the disjoint pairs (x[0],x[1]), (x[2],x[3]), .. -- a descent from an odd to the next even '
                                             'index (x[1] > x[2]) is never seen, so unsorted abscissae are accepted' % short(it[1]))
             if not good and not problems:
-                loopish = any(tag(li['iter']) == 'range' for li in loops) or any(tag(cn) == 'call' and short(cn[1]) in ('any', 'all') for cn, _ in gs)
+                def over_range(cn):
+                    it = cn[2][0]
+                    while tag(it) == 'call' and short(it[1]) in ('into_iter', 'iter', 'by_ref') and it[2]:
+                        it = it[2][0]
+                    return tag(it) == 'range'
+                # a counting loop / any / all over an index range was read and is not the adjacent-pair check; other iterator shapes are not read
+                loopish = any(tag(li['iter']) == 'range' for li in loops) or any(
+                    tag(cn) == 'call' and short(cn[1]) in ('any', 'all') and len(cn[2]) == 2 and over_range(cn) for cn, _ in gs)
                 if loopish:
                     problems.append('no check over 0..len(x)-1 that panics when x[i+1] < x[i] dominates the call')
                 else:
@@ -437,6 +479,34 @@ def run(prog, rep, tier, repo):
     else:
         rep.viol('checked', key, 'result sites are not dominated by the length assert', site_of(f.body))
     return {}
+
+
+def _view_of(it, x):
+    """(offset, length polynomial) of an iterator / slice term over a contiguous part of x: x, x[a..], x[..b], x[a..b], .iter(), .skip(k)"""
+    skip = 0
+    while tag(it) == 'call' and it[2]:
+        s_ = short(it[1])
+        if s_ in ('iter', 'into_iter', 'deref', 'as_slice', 'by_ref', 'copied', 'cloned'):
+            it = it[2][0]
+        elif s_ == 'skip' and len(it[2]) == 2 and tag(it[2][1]) == 'const':
+            skip += it[2][1][2]
+            it = it[2][0]
+        else:
+            return None
+    n = {(('len', x),): 1}
+    if it == x:
+        return (skip, psub(n, {(): skip}) if skip else n)
+    if tag(it) == 'index' and it[1] == x and tag(it[2]) == 'agg' and it[2][1] == 'adt':
+        kind, comps = it[2][2], it[2][3]
+        if kind == 'std::ops::RangeFrom' and tag(comps[0]) == 'const':
+            a = comps[0][2]
+            return (a + skip, psub(n, {(): a + skip}))
+        if kind == 'std::ops::RangeTo':
+            return (skip, psub(poly(comps[0]), {(): skip}) if skip else poly(comps[0]))
+        if kind == 'std::ops::Range' and tag(comps[0]) == 'const':
+            a = comps[0][2]
+            return (a + skip, psub(poly(comps[1]), {(): a + skip}))
+    return None
 
 
 def _orders_adjacent(cn, v, x, i):
